@@ -3,7 +3,9 @@
 cd "$(dirname "$0")"
 tier=${1:-quick}
 rc=0
-for p in $(python3 -c "import json;print(' '.join(c['property_id'] for c in json.load(open('MANIFEST.json'))['checks']))"); do
+# PROPS="C09 C10 ..." limits and orders the properties (default: all, in MANIFEST order)
+props=${PROPS:-$(python3 -c "import json;print(' '.join(c['property_id'] for c in json.load(open('MANIFEST.json'))['checks']))")}
+for p in $props; do
 	out=$(./check.sh $p $tier 2>&1); code=$?
 	echo "$p exit=$code $(echo "$out" | tail -1)"
 	echo "$out" | grep "^VIOLATION\|^KNOWN-FINDING" | cut -c1-160
